@@ -88,8 +88,17 @@ pub fn run(ctx: &mut Ctx) {
         }
         let s = inputs::small_string(i, small_len);
         for m in masks {
-            eval(ctx, &EncCase { input: s.clone(), list: "default".into(), mask: *m, macros: true, fnc1: false, eci: None, order: 0 }, "small_scope_exhaustive");
+            eval(ctx, &EncCase { input: s.clone(), list: "default".into(), mask: *m, macros: true, fnc1: false, eci: None, order: 0, prelude: 0, skipdef: false }, "small_scope_exhaustive");
         }
+    }
+    // three-part family around the Base256 length-field edge (deterministic)
+    let fam_step = if ctx.is_thorough() { 1 } else { 3 };
+    let mut i = ctx.shard * fam_step;
+    while i < inputs::family_count() {
+        let input = inputs::family_case(i);
+        let list = if i % 4 == 1 { "all" } else { "default" };
+        eval(ctx, &EncCase { input, list: list.into(), mask: 63, macros: i % 2 == 0, fnc1: i % 16 == 5, eci: None, order: 0, prelude: 0, skipdef: false }, "three_part_family");
+        i += fam_step * ctx.nshards;
     }
     let n = ctx.budget(300_000, 30_000_000);
     for i in 0..n {
